@@ -7,12 +7,18 @@ individual lag, partitions freeze a client's queue and replica.  One virtual clo
 ("client clocks agree").  Two disciplines:
   * `fifo`    : a client's commands enter the log in submission order;
   * `reorder` : a command may be overtaken by later commands of the same client (the clock is read before
-                the command is enqueued, on the caller's or the prolongation thread -- D19).
+                the command is enqueued, on the caller's or the prolongation thread -- D19);
+  * `stale`   : every command carries an individual commit delay (0, < U/4, ~U, > U, several U): it enters
+                the log only that much later, with its old stamp, after younger commands of everybody --
+                in particular a prolongation of X stamped t after an acquire of Y stamped t' > t + U.
 Checked after every event at the common time: (1) at most one client considers a lock held by itself
 (`isAcquired` on its own replica, and it has no release of its own outstanding); (2) nobody is told True
 for an acquisition that took longer than U/2, and a late one leaves a release behind; (3) a lock whose
 holder's greatest stamp in the log is t0 is granted to any other client's acquire with stamp > t0+U;
-(4) a release by a non-holder leaves the table unchanged.  Written against properties.jsonl C16, not
+(4) a release by a non-holder leaves the table unchanged; (5) a holder that shows up in time never
+loses its lock: at the log head a held lock changes hands only by the holder's release or by a command
+stamped later than lock time + U (`KeepMonitor`), and in the directed `stale` schedules the holder that
+prolongs every < U/2 still answers isAcquired after catching up and nobody else was granted.  Written against properties.jsonl C16, not
 against the Lean model."""
 import glob
 import hashlib
@@ -27,6 +33,14 @@ ORDER = 42
 
 SIG_REORDER = "batteries.ReplLockManager:stamp-reorder-mutex"
 SIG_MUTEX = "batteries.ReplLockManager:mutex-broken"
+SIG_MUTEX_STALE = "batteries.ReplLockManager:stale-stamp-mutex"
+
+
+def delay(rng, U, mode):
+    """commit delay of one command in the `stale` discipline: 0, < U/4, ~U, > U, several U"""
+    if mode != "stale":
+        return ()
+    return (rng.choice((0, 0, 0, max(1, U // 4) - 1, U - 1, U, U + 1, U + 2, 2 * U + 1, 3 * U)),)
 
 
 def gen_events(rng, U, ncl, nlk, n, mode):
@@ -38,13 +52,13 @@ def gen_events(rng, U, ncl, nlk, n, mode):
         if r < 0.16:
             evs.append(("adv", rng.choice((0, 1, 1, 1, 2, max(1, U // 4), max(1, U // 2), U, U + 1))))
         elif r < 0.34:
-            evs.append(("try", c, l))
+            evs.append(("try", c, l) + delay(rng, U, mode))
         elif r < 0.40:
-            evs.append(("rel", c, l))
+            evs.append(("rel", c, l) + delay(rng, U, mode))
         elif r < 0.52:
-            evs.append(("tick", c))
+            evs.append(("tick", c) + delay(rng, U, mode))
         elif r < 0.70:
-            evs.append(("flush", c, rng.randrange(0, 3) if mode == "reorder" else 0))
+            evs.append(("flush", c, rng.randrange(0, 3) if mode != "fifo" else 0))
         elif r < 0.94:
             evs.append(("deliver", c, rng.choice((1, 1, 2, 5))))
         elif r < 0.97:
@@ -55,8 +69,9 @@ def gen_events(rng, U, ncl, nlk, n, mode):
 
 
 class World(object):
-    def __init__(self, bat, U, ncl, nlk):
+    def __init__(self, bat, U, ncl, nlk, mute_keep=False):
         self.bat, self.U, self.ncl, self.nlk = bat, U, ncl, nlk
+        self.mute_keep = mute_keep          # second pass: look only at what the clients themselves observe
         self.clock = lc.VClock(10)
         self.log = []                 # (cmd, cb, submitter)
         self.viols = []
@@ -73,10 +88,11 @@ class World(object):
             cl = []
             for i in range(self.ncl):
                 mgr, impl, so = lc.make_manager(bat, U, i + 1)
-                cl.append({"mgr": mgr, "impl": impl, "so": so, "applied": 0, "part": False, "attempts": [],
+                cl.append({"mgr": mgr, "impl": impl, "so": so, "applied": 0, "part": False, "attempts": [], "due": [],
                            "rel_sub": {}, "rel_app": {}})
             self.cl = cl
-            ref = bat._ReplLockManagerImpl(U)       # the log head
+            keep = self.keep = lc.KeepMonitor(bat, U)           # the log head, with clause (5)
+            ref = keep.impl
             first = None
             for idx, ev in enumerate(evs):
                 k = ev[0]
@@ -84,27 +100,39 @@ class World(object):
                     clock.now += ev[1]
                 elif k == "try":
                     c = cl[ev[1]]
+                    self.sync_due(c, 0)
                     att = clock.now
                     rec = {"l": ev[2], "att": att, "ans": None, "n_sub": len(c["so"].submitted)}
                     c["attempts"].append(rec)
                     c["mgr"].tryAcquire(lc.lock_name(ev[2]), callback=(lambda r, e, rec=rec: self.answered(rec, r, e)))
+                    self.sync_due(c, ev[3] if len(ev) > 3 else 0)
                     self.hit("try")
                 elif k == "rel":
-                    cl[ev[1]]["mgr"].release(lc.lock_name(ev[2]))
+                    c = cl[ev[1]]
+                    self.sync_due(c, 0)
+                    c["mgr"].release(lc.lock_name(ev[2]))
+                    self.sync_due(c, ev[3] if len(ev) > 3 else 0)
                     self.hit("release")
                 elif k == "tick":
                     c = cl[ev[1]]
+                    self.sync_due(c, 0)
                     n0 = len(c["so"].submitted)
                     lc.tick_once(bat, c["mgr"], clock)
+                    self.sync_due(c, ev[2] if len(ev) > 2 else 0)
                     self.hit("tick.prolong" if len(c["so"].submitted) > n0 else "tick.skip")
                 elif k == "flush":
                     c = cl[ev[1]]
+                    self.sync_due(c, 0)
                     q = c["so"].queue
-                    if q and not c["part"]:
-                        j = min(ev[2], len(q) - 1)
+                    ready = [i for i in range(len(q)) if c["due"][i] <= clock.now]
+                    if ready and not c["part"]:
+                        j = ready[min(ev[2], len(ready) - 1)]
                         if j > 0:
                             self.hit("flush.overtaken")
+                        if clock.now - q[j][0][-1] > U and q[j][0][0] != "rel":
+                            self.hit("flush.stamp-older-than-U")
                         cmd, cb = q.pop(j)
+                        c["due"].pop(j)
                         self.append(ref, cmd, cb, ev[1] + 1)
                 elif k == "deliver":
                     c = cl[ev[1]]
@@ -118,6 +146,7 @@ class World(object):
                             c["rel_app"][cmd[1]] = c["rel_app"].get(cmd[1], 0) + 1
                         if cb is not None and sub == ev[1] + 1:
                             cb(r, 0)
+                            self.sync_due(c, 0)
                         self.hit("deliver")
                 elif k == "part":
                     cl[ev[1]]["part"] = True
@@ -126,6 +155,23 @@ class World(object):
                 elif k == "heal":
                     cl[ev[1]]["part"] = False
                     cl[ev[1]]["so"].leader = True
+                if k == "expect_holds":
+                    # directed `stale` schedules: the holder acquired, prolonged every < U/2, has caught up
+                    c = cl[ev[1]]
+                    self.hit("expect.holder-still-holds")
+                    if not c["mgr"].isAcquired(lc.lock_name(ev[2])):
+                        self.viols.append({"signature": "batteries.ReplLockManager:holder-lost-lock-without-release-or-expiry",
+                                           "what": "client %d acquired L%d, prolonged it every < U/2 (U=%d), never released; after catching up "
+                                                   "(log position %d of %d) at time %d its isAcquired is False; table %s"
+                                                   % (ev[1] + 1, ev[2], U, c["applied"], len(self.log), clock.now, lc.table_of(c["impl"]))})
+                elif k == "expect_refused":
+                    c = cl[ev[1]]
+                    self.hit("expect.competitor-refused")
+                    got = [a["ans"] for a in c["attempts"] if a["l"] == ev[2] and a["ans"] is not None]
+                    if any(r is True for (_, r) in got):
+                        self.viols.append({"signature": "batteries.ReplLockManager:lock-granted-while-held-and-prolonged",
+                                           "what": "client %d was granted L%d (answers %s) while another client holds and prolongs it every < U/2 (U=%d)"
+                                                   % (ev[1] + 1, ev[2], got, U)})
                 self.observe(idx)
                 if self.viols and first is None:
                     first = idx
@@ -133,6 +179,12 @@ class World(object):
             for c in cl:
                 c["mgr"].destroy()
         return first
+
+    def sync_due(self, c, d):
+        """commands that appeared in the client's queue since the last look become due `d` later"""
+        while len(c["due"]) < len(c["so"].queue):
+            c["due"].append(self.clock.now + d)
+        del c["due"][len(c["so"].queue):]
 
     def answered(self, rec, r, e):
         rec["ans"] = (self.clock.now, r)
@@ -148,7 +200,11 @@ class World(object):
     def append(self, ref, cmd, cb, submitter):
         before = lc.table_of(ref)
         held = dict((e[0], (e[1], e[2])) for e in before)
-        r = lc.apply_cmd(ref, cmd)
+        r, kviol, flags = self.keep.apply(cmd)
+        for f in flags:
+            self.hit(f)
+        if kviol is not None and not self.mute_keep:
+            self.viols.append(kviol)
         self.log.append((cmd, cb, submitter))
         self.hit("log." + cmd[0])
         if cmd[0] == "acq":
@@ -197,15 +253,15 @@ class World(object):
                 return
 
 
-def run_case(bat, case):
-    w = World(bat, case["U"], case["ncl"], case["nlk"])
+def run_case(bat, case, mute_keep=False):
+    w = World(bat, case["U"], case["ncl"], case["nlk"], mute_keep=mute_keep)
     first = w.run([tuple(e) for e in case["events"]])
     return w, first
 
 
-def shrink(bat, case, sig_of):
+def shrink(bat, case, sig_of, mute_keep=False):
     """truncate at the violation, then drop events greedily while the same signature is still produced"""
-    w, first = run_case(bat, case)
+    w, first = run_case(bat, case, mute_keep)
     want = sig_of(w.viols[0])
     cur = dict(case, events=list(case["events"][:first + 1]))
     budget = 300
@@ -213,7 +269,7 @@ def shrink(bat, case, sig_of):
     while i >= 0 and budget > 0:
         cand = dict(cur, events=cur["events"][:i] + cur["events"][i + 1:])
         budget -= 1
-        w2, f2 = run_case(bat, cand)
+        w2, f2 = run_case(bat, cand, mute_keep)
         if f2 is not None and sig_of(w2.viols[0]) == want:
             cur = cand
         i -= 1
@@ -223,6 +279,8 @@ def shrink(bat, case, sig_of):
 def make_case(rng, mode, tier_n):
     U = rng.choice((2, 4, 8, 10, 12))
     ncl, nlk = rng.choice((2, 2, 3)), rng.choice((1, 1, 2))
+    if mode == "stale":
+        ncl = 3
     return {"U": U, "ncl": ncl, "nlk": nlk, "mode": mode,
             "events": gen_events(rng, U, ncl, nlk, rng.randrange(20, tier_n), mode)}
 
@@ -254,16 +312,50 @@ def directed_case(rng, mode):
     return {"U": U, "ncl": ncl, "nlk": 2, "mode": mode, "events": out}
 
 
+def stale_case(rng):
+    """Directed `stale` family: X's prolongation is stamped t and committed with a delay D; meanwhile Y
+    acquires at t' (t' - t around / beyond U) and prolongs every < U/2; the stale prolongation is committed;
+    Y's replica lags; a third client Z tries; Y catches up.  Y must still hold, Z must have been refused, and
+    at no instant may two of them consider the lock held."""
+    U = rng.choice((4, 8, 10, 12))
+    Y, Z, X, l = 0, 1, 2, 1
+    D = rng.choice((0, max(1, U // 4) - 1, U - 1, U + 1, U + 2, 2 * U + 1, 3 * U))
+    gap = rng.choice((1, U - 1, U, U + 1, U + 2, 2 * U, 3 * U))          # t' - t
+    step = max(1, U // 2 - 1)
+    ev = []
+    if rng.random() < 0.5:                      # X may itself hold another lock
+        ev += [("try", X, 2), ("flush", X, 0), ("deliver", X, 5)]
+    ev += [("tick", X, D), ("adv", gap), ("try", Y, l), ("flush", Y, 0), ("deliver", Y, 5), ("deliver", Z, 5)]
+    elapsed = gap
+    for _ in range(rng.randrange(1, 4)):
+        ev += [("adv", step), ("tick", Y), ("flush", Y, 0), ("deliver", Y, 5)]
+        elapsed += step
+    if elapsed < D and rng.random() < 0.7:      # let the stale command become due while Y keeps prolonging
+        while elapsed < D:
+            ev += [("adv", step), ("tick", Y), ("flush", Y, 0), ("deliver", Y, 5)]
+            elapsed += step
+    lag = rng.random() < 0.7
+    if lag:
+        ev += [("part", Y, rng.random() < 0.5)]
+    ev += [("flush", X, 0), ("deliver", Z, 9), ("deliver", X, 9), ("adv", rng.choice((0, 0, 1)))]
+    ev += [("try", Z, l), ("flush", Z, 0), ("deliver", Z, 9), ("deliver", X, 9)]
+    if lag:
+        ev += [("heal", Y)]
+    ev += [("deliver", Y, 9), ("expect_refused", Z, l), ("expect_holds", Y, l)]
+    return {"U": U, "ncl": 3, "nlk": 2, "mode": "stale", "events": ev}
+
+
 def sig_of_factory(mode):
     def sig_of(v):
         if v["signature"] is not None:
             return v["signature"]
-        return SIG_REORDER if mode == "reorder" else SIG_MUTEX
+        return SIG_REORDER if mode == "reorder" else SIG_MUTEX_STALE if mode == "stale" else SIG_MUTEX
     return sig_of
 
 
-def explore(ctx, bat, salt, ncases, max_viol=2):
+def explore(ctx, bat, salt, ncases, max_viol=4):
     cov, seen, viols, done = {}, set(), [], 0
+    sigs_seen = set()                       # one (shrunk) violation per distinct signature
     corpus = []
     for p in sorted(glob.glob(os.path.join(ctx.verif, "corpus", "locks", "sched-*.json"))):
         corpus.append(json.load(open(p)))
@@ -273,9 +365,9 @@ def explore(ctx, bat, salt, ncases, max_viol=2):
         if i < len(corpus):
             case = corpus[i]
         else:
-            mode = "reorder" if i % 2 else "fifo"
-            if i % 3 == 0:
-                case = directed_case(rng, mode)
+            mode = ("fifo", "reorder", "stale")[i % 3]
+            if i % 4 == 0:
+                case = stale_case(rng) if mode == "stale" else directed_case(rng, mode)
                 cov["directed." + mode] = cov.get("directed." + mode, 0) + 1
             else:
                 case = make_case(rng, mode, ctx.scale(120, 300))
@@ -285,13 +377,21 @@ def explore(ctx, bat, salt, ncases, max_viol=2):
         for k, v in w.cov.items():
             cov[k] = cov.get(k, 0) + v
         cov["mode." + case["mode"]] = cov.get("mode." + case["mode"], 0) + 1
-        if first is not None and len(viols) < max_viol:
+        if first is not None:
             sig_of = sig_of_factory(case["mode"])
-            small = shrink(bat, case, sig_of)
-            w2, _ = run_case(bat, small)
-            v = w2.viols[0]
-            viols.append({"signature": sig_of(v), "what": "[%s discipline] %s" % (case["mode"], v["what"]),
-                          "replay": {"kind": "schedule", "case": small}})
+            passes = [False]
+            if "held-lock-dropped-before-expiry" in sig_of(w.viols[0]):
+                passes.append(True)         # also: what do the clients themselves see on this schedule?
+            for mute in passes:
+                wm, fm = (w, first) if not mute else run_case(bat, case, True)
+                if fm is None or sig_of(wm.viols[0]) in sigs_seen or len(viols) >= max_viol:
+                    continue
+                sigs_seen.add(sig_of(wm.viols[0]))
+                small = shrink(bat, case, sig_of, mute)
+                w2, _ = run_case(bat, small, mute)
+                v = w2.viols[0]
+                viols.append({"signature": sig_of(v), "what": "[%s discipline] %s" % (case["mode"], v["what"]),
+                              "replay": {"kind": "schedule", "case": small, "mute_keep": mute}})
         if time.time() > t_end:
             break
     return cov, seen, viols, done
@@ -300,7 +400,8 @@ def explore(ctx, bat, salt, ncases, max_viol=2):
 FLOORS = ["try", "release", "tick.prolong", "tick.skip", "deliver", "partition", "answer.true", "answer.false",
           "answer.late", "log.acq", "log.pro", "log.rel", "acq.after-expiry", "rel.nonholder", "held.1",
           "held.on-lagging-replica", "flush.overtaken", "mode.fifo", "mode.reorder",
-          "directed.fifo", "directed.reorder"]
+          "directed.fifo", "directed.reorder", "directed.stale", "mode.stale", "flush.stamp-older-than-U",
+          "pro.stale-while-fresh-lock-of-another-client", "expect.holder-still-holds", "expect.competitor-refused"]
 
 
 def run(ctx):
@@ -323,7 +424,7 @@ def search(ctx, unproved):
 def replay(ctx, violation):
     bat = lc.load_batteries(ctx.repo)
     case = violation["replay"]["case"]
-    w, first = run_case(bat, case)
+    w, first = run_case(bat, case, bool(violation["replay"].get("mute_keep")))
     sig_of = sig_of_factory(case["mode"])
     return {"violated": first is not None and sig_of(w.viols[0]) == violation.get("signature"),
             "first_violation_after_event": first, "what": [v["what"] for v in w.viols[:2]],
